@@ -70,7 +70,10 @@ def script_st(draw):
     nst = draw(st.integers(1, 30))
     ts = sorted(draw(st.lists(st.integers(0, nst + 2), min_size=1, max_size=6)))
     tmax = draw(st.sampled_from([None, None, dt * (nst + 0.5), dt * 0.5, 0.0]))
-    return {"sys": spec, "route": draw(st.sampled_from(["ctor", "dict"])), "units": dict(DEF_US),
+    units = dict(DEF_US)
+    if draw(st.integers(0, 2)) == 0:
+        units = {"space": draw(st.sampled_from(si.SPACE_SYMS)), "time": "s", "quantity": draw(st.sampled_from(si.QUANTITY_SYMS))}
+    return {"sys": spec, "route": draw(st.sampled_from(["ctor", "dict"])), "units": units,
             "t_sample": [v * dt for v in ts], "time_step": dt, "t_max": tmax,
             "policy": draw(st.sampled_from(["on_t_sample", "on_t_sample", "on_iteration", "on_interval", "no_sampling"])),
             "interval": dt * draw(st.sampled_from([0.5, 1.0, 2.5])), "seed": draw(st.integers(0, 2 ** 32 - 1)),
